@@ -329,35 +329,52 @@ def check_bookkeeping(prog, ctx, ds):
         tm = Terms(fi.node, max_depth=0)
         c = cfg_of(fi)
         ov = fi.params[2] if len(fi.params) > 2 else "override_scaling"
-        first = None
-        for n in c.nodes:
-            if n.kind == "test":
-                t = tm.term(n.ast)
-                if t == ("a", ("n", "self"), "_scaled"):
-                    first = n
-        if first is None:
-            raise AnalysisError("C18.D5: %s no longer branches on self._scaled" % fi.qual)
-        # branch membership: "first/overriding" branch = reachable when (_scaled is False) edge is taken or override is True
+        # branch membership by evaluating the tests on (override_scaling, self._scaled) under the four assignments: the composing
+        # branch is what runs for (override False, scaled True); the first / overriding branch what runs otherwise
+        SC = ("a", ("n", fi.self_name), "_scaled")
+        OV = ("n", ov)
+        atoms_seen = set()
+
+        def truth(t, sigma):
+            if t == OV:
+                return sigma[0]
+            if t == SC:
+                return sigma[1]
+            if t[0] == "not":
+                v = truth(t[1], sigma)
+                return None if v is None else (not v)
+            if t[0] == "cmp" and t[1] == "Is" and t[3] in (("c", "True"), ("c", "False")):
+                v = truth(t[2], sigma)
+                return None if v is None else (v == (t[3] == ("c", "True")))
+            return None
+        reach = {}
+        for sigma in ((False, True), (True, True), (True, False), (False, False)):
+            blocked = set()
+            for n in c.nodes:
+                if n.kind == "test":
+                    v = truth(tm.term(n.ast), sigma)
+                    if v is not None:
+                        atoms_seen.add(n.idx)
+                        for (sx, l) in n.succ:
+                            if l is (not v):
+                                blocked.add((n.idx, sx.idx, l))
+            reach[sigma] = c.reachable(blocked_edges=blocked)
+        if not atoms_seen:
+            raise AnalysisError("C18.D5: %s no longer branches on self._scaled / %s" % (fi.qual, ov))
+
         def branch_of(node):
-            guards = [g for (g, gn) in R.dominating_guards(fi, node, tm) if gn.kind == "test"]
-            if ("n", ov) in guards or ("not", ("a", ("n", "self"), "_scaled")) in guards:
-                return "override"
-            if ("a", ("n", "self"), "_scaled") in guards and ("not", ("n", ov)) in guards:
+            in_comp = node.idx in reach[(False, True)]
+            in_over = any(node.idx in reach[sg] for sg in ((True, True), (True, False), (False, False)))
+            if in_comp and not in_over:
                 return "compose"
+            if in_over and not in_comp:
+                return "override"
             return None
         stores = {"override": {}, "compose": {}}
         data_nodes = {"override": [], "compose": []}
         for s_ in R.self_stores(fi):
             n = c.node_of(s_.stmt)
             b = branch_of(n)
-            if b is None:
-                # statements under `if A or B:` have two dominating edges; classify by block position: body of the first If -> override
-                par = s_.stmt
-                while par is not None and not isinstance(getattr(par, "_parent", None), (ast.FunctionDef,)):
-                    par = getattr(par, "_parent", None)
-                top = par
-                if isinstance(top, ast.If):
-                    b = "override" if any(s_.stmt is x or any(s_.stmt is y for y in ast.walk(x)) for x in top.body) else "compose"
             if b is None:
                 continue
             if s_.attr == "_data":
